@@ -253,6 +253,11 @@ pub trait Scenario {
     fn label(_plan: &Self::Plan) -> String {
         String::new()
     }
+    /// How many times the ordinary per-plan CPU allowance this plan may take before the
+    /// watchdog calls it a hang (very large objects are slow, not stuck).
+    fn budget(_plan: &Self::Plan) -> u64 {
+        1
+    }
     fn rule() -> String;
     fn assumptions() -> Vec<String>;
     fn components() -> serde_json::Value;
